@@ -255,6 +255,30 @@ def run(rep, tier="quick", replay=None, evidence_dir=None):
         srcs = [bi for fam in prog.with_closures(b) for bi, t in fam.calls() if callee_names(t["func"])[0] in ("std::cmp::PartialEq::ne", "std::cmp::PartialEq::eq") and "Schema" in str(t["func"].get("ga"))]
         rep.ob("C08.R6", "%s derives should_resolve_schema from a comparison of the writer and the reader schema" % b.path, len(srcs) >= 1, "", b.loc())
     rep.floor("C08.R6", "functions that compute should_resolve_schema", len(rb), 1)
+    # ---------------------------------------------------------------- R7 / R8 the result validates; resolving again changes nothing
+    rep.rule("C08.R7", "for every non-composite reader shape the variant a resolver builds on its success paths is one validation accepts for that shape")
+    rep.rule("C08.R8", "for every non-composite reader shape the resolved variant resolves again against the same shape into the same variant (idempotence at shape level)")
+    import wiretab
+    VT = wiretab.tables(prog)["val"]
+    RTc = restab.table(prog)["cells"]
+    COMPOSITE = {"Array", "Map", "Record", "Union", "Ref"}
+    by_r = {}
+    for (V_, R_), c_ in RTc.items():
+        if c_["cls"] != "never" and R_.split("(")[0] not in COMPOSITE:
+            by_r.setdefault(R_, {}).setdefault("builds", set()).update(c_["builds"])
+            by_r[R_]["loc"] = c_["loc"]
+    n7 = 0
+    for R_, d_ in sorted(by_r.items()):
+        base = R_.split("(")[0]
+        for b_ in sorted(d_["builds"]):
+            n7 += 1
+            vc = VT.get((b_, R_)) or VT.get((b_, base))
+            rep.ob("C08.R7", "resolving against %s builds Value::%s, which validates against %s" % (R_, b_, R_), vc is not None and vc["cls"] != "never",
+                   "the resolver hands out a Value::%s for a %s reader, validate_internal has no accepting path for that pair: the resolved value does not conform to the reader schema" % (b_, R_), d_["loc"])
+            rc = RTc.get((b_, R_)) or RTc.get((b_, base))
+            rep.ob("C08.R8", "a Value::%s resolved against %s resolves again into the same variant" % (b_, R_), rc is not None and rc["cls"] != "never" and set(rc["builds"]) <= {b_},
+                   "resolving the already resolved value %s" % ("fails" if rc is None or rc["cls"] == "never" else "builds %s" % rc["builds"]), d_["loc"])
+    rep.floor("C08.R7", "non-composite reader shapes x built variants", n7, 25)
     rep.floor("C08", "obligations", len(rep.obligations), 500)
     rep.not_decided = ["union branch selection by type, default values, idempotence, validate(resolved, R): value-level, need execution",
                        "logical-type *values* read with a reader of the underlying type (date -> long ...): demanded by C09.R1 where the compatibility checker promises it"]
